@@ -68,8 +68,11 @@ type poolCfg struct {
 	stallKill time.Duration
 	emitFirst int
 	extra     []string
-	trace     bool // runOnce only: let the worker name every damaged input on stderr
+	trace     bool   // runOnce only: let the worker name every damaged input on stderr
 	perProc   uint64 // runs per worker process (0: no limit): 1 makes every run start in a fresh, cold process
+	// unmodelled: places in the instrumented sources where a goroutine can park outside the
+	// scheduler's control (instr.Result.Unmodelled); a stalled worker is then no verdict
+	unmodelled []string
 }
 
 type poolOut struct {
@@ -386,6 +389,15 @@ loop:
 		return last, exitErr, nil
 	}
 	// abnormal death during a run (fatal error, out of memory, killed by the watchdog)
+	if stalled && len(cfg.unmodelled) > 0 {
+		// The sources park goroutines in a construct the one-runner scheduler cannot take over
+		// (it would have to own the wake-up): the worker sat still because the simulation could
+		// not proceed, which says nothing about the library. Infrastructure failure, not a verdict.
+		out.mu.Lock()
+		out.infraErrs = append(out.infraErrs, fmt.Sprintf("worker stalled during run %d and the instrumented sources contain blocking constructs the scheduler does not model (%s): cannot decide", curIdx, strings.Join(cfg.unmodelled, "; ")))
+		out.mu.Unlock()
+		return last, exitErr, nil
+	}
 	if haveCur && (!doneAny || curIdx != lastDone) {
 		kind := "abort"
 		txt := errTail.String()
